@@ -98,6 +98,7 @@ func checkC04(c *Ctx) {
 	// "the answer to a request does not depend on any earlier request" (stateless) and "served in that session"
 	// (stateful): the session a request is dispatched on is looked up or created for it, never a shared member
 	dispatchOwnContext(c, "R-own-session")
+	c04HeaderBeforeStream(c)
 	c04SwitchStaysOff(c)
 	// "DELETE ends the session together with its open stream": the stream table rules of C11 (among them: the stream's
 	// handler waits on the context that the registered cancel function cancels) are necessary here too
@@ -205,6 +206,7 @@ func checkC04(c *Ctx) {
 	x.stateless(flag)
 	x.deleteRule()
 	x.table()
+	x.reportFromTable()
 }
 
 // ---------------------------------------------------------------- R-sid-entropy
@@ -1297,5 +1299,141 @@ func c04SwitchStaysOff(c *Ctx) {
 	c.R.Extra["session_switches"] = ks
 	if n == 0 {
 		c.R.Hold("R-session-switch", "the session switch is never turned on outside the constructor's defaults", "", sprintf("%v", ks))
+	}
+}
+
+// ---------------------------------------------------------------- R-header-before-stream
+// "Every request bearing the id is answered with the same id": response headers can only be set until the first byte
+// of the body is written. A handler that builds a notification sender around its own ResponseWriter gives the user's
+// handler the means to write to the response while the request is being dispatched — the first in-call notification
+// commits the headers. In such a function a Set of the Mcp-Session-Id response header must therefore lie on the way to
+// the dispatch (it reaches the dispatch call); one that only happens when the answer is written comes too late for
+// every call that notifies first.
+func c04HeaderBeforeStream(c *Ctx) {
+	senderIface := c.senderIface()
+	if senderIface == nil {
+		c.R.Break("R-header-before-stream: notification sender interface not found")
+		return
+	}
+	n := 0
+	for _, fn := range c.P.LibFns {
+		if clientSide(c, fn) {
+			continue
+		}
+		var w *ssa.Parameter
+		for _, p := range fn.Params {
+			if isResponseWriter(p.Type()) {
+				w = p
+			}
+		}
+		if w == nil {
+			continue
+		}
+		var senderCalls []*ssa.Call
+		ir.EachInstr(fn, func(_ *ssa.BasicBlock, _ int, in ssa.Instruction) {
+			call, ok := in.(*ssa.Call)
+			if !ok {
+				return
+			}
+			sc := ir.StaticCallee(call)
+			if sc == nil || !c.P.IsLib(sc) || sc.Signature.Results().Len() != 1 || !types.Implements(sc.Signature.Results().At(0).Type(), senderIface.Underlying().(*types.Interface)) {
+				return
+			}
+			for _, a := range call.Call.Args {
+				if ir.Unwrap(a) == ssa.Value(w) {
+					senderCalls = append(senderCalls, call)
+				}
+			}
+		})
+		if len(senderCalls) == 0 {
+			continue
+		}
+		// header sets of the session id on w in this function
+		var sets []ssa.Instruction
+		ir.EachInstr(fn, func(_ *ssa.BasicBlock, _ int, in ssa.Instruction) {
+			call, ok := in.(*ssa.Call)
+			if !ok {
+				return
+			}
+			nm := ir.CallName(call)
+			if nm != "(net/http.Header).Set" && nm != "(net/http.Header).Add" {
+				return
+			}
+			if k, ok := ir.ConstStr(call.Call.Args[1]); !ok || !strings.EqualFold(k, "Mcp-Session-Id") {
+				return
+			}
+			sets = append(sets, in)
+		})
+		// dispatch calls that can run with the sender (reachable from its construction)
+		ir.EachInstr(fn, func(_ *ssa.BasicBlock, _ int, in ssa.Instruction) {
+			call, ok := in.(*ssa.Call)
+			if !ok || !c.isDispatchCall(call) {
+				return
+			}
+			after := false
+			for _, s := range senderCalls {
+				if flow.Reaches(s, call) {
+					after = true
+				}
+			}
+			if !after {
+				return
+			}
+			n++
+			early := false
+			for _, s := range sets {
+				if flow.Reaches(s, call) {
+					early = true
+				}
+			}
+			c.R.Check(early, "R-header-before-stream", sprintf("session id header before the streaming dispatch in %s", fname(fn)), c.Pos(call.Pos()),
+				"the Mcp-Session-Id header is set on the way to the dispatch",
+				sprintf("%s dispatches the request with a notification sender that writes to its own ResponseWriter, but no Set of the Mcp-Session-Id response header lies before that dispatch: the first notification the handler sends commits the response headers, and the answer of a request that bears a session id goes out without the id", fname(fn)))
+		})
+	}
+	if n == 0 {
+		c.R.Break("R-header-before-stream: no dispatch with a sender around the handler's own ResponseWriter found")
+	}
+}
+
+// ---------------------------------------------------------------- R-report-from-table
+// "The set of live sessions the server reports equals the set the history leaves alive": the exported reporting call
+// (GetActiveSessions of a server type) enumerates the session table itself — some function it reaches ranges over the
+// table's map — and consults no other table (the table of open listening streams has an entry only for sessions that
+// currently hold a GET stream).
+func (x *c04ctx) reportFromTable() {
+	c := x.c
+	n := 0
+	for _, T := range c.serverTypes() {
+		m := c.P.Method(T, "GetActiveSessions")
+		if m == nil {
+			continue
+		}
+		n++
+		reach := c.ReachSync(m)
+		ranges, other := false, ""
+		for f := range reach {
+			if !c.P.IsLib(f) {
+				continue
+			}
+			ir.EachInstr(f, func(_ *ssa.BasicBlock, _ int, in ssa.Instruction) {
+				switch y := in.(type) {
+				case *ssa.Range:
+					if fl, _, ok := ir.LoadedField(y.X); ok && fl.Key() == x.sessTable {
+						ranges = true
+					}
+				case *ssa.UnOp:
+					if fl, _, ok := ir.LoadedField(y); ok && fl.Key() == x.streamTbl && x.streamTbl != "" {
+						other = fname(f)
+					}
+				}
+			})
+		}
+		construct := ir.TypeKey(T) + ".GetActiveSessions"
+		c.R.Check(ranges && other == "", "R-report-from-table", construct, c.Pos(m.Pos()), "enumerates "+x.sessTable+" and no other table",
+			sprintf("%s does not report the session table: enumerates %s: %v; reads the listening-stream table %s in %q — sessions that are alive but hold no GET stream at the moment are missing from the reported set", construct, x.sessTable, ranges, x.streamTbl, other))
+	}
+	if n == 0 {
+		c.R.Break("R-report-from-table: no exported GetActiveSessions on a server type")
 	}
 }
